@@ -281,8 +281,12 @@ def limits(tier, v07, workdir, cov):
     from . import simple as SP
     cases = SP.gen("Limits", tier, workdir)
     # big patterns: four flag sets are enough (the resource guards do not depend on i/m/s)
-    obs, crashes, ncases = run_grammar(cases, workdir, "lim", opts=["--flagsets", ",i,u,iv", "--limit-ms", "60000"], shards=8,
-                                       timeout=3000)
+    S.MEM_LIMIT_GB = 24          # a million alternatives need a few GB; unbounded growth still aborts
+    try:
+        obs, crashes, ncases = run_grammar(cases, workdir, "lim", opts=["--flagsets", ",i,u,iv", "--limit-ms", "60000"], shards=8,
+                                           timeout=3000)
+    finally:
+        S.MEM_LIMIT_GB = 8
     sets = ["", "i", "u", "iv"]
     n = 0
     with open(cases) as f:
